@@ -11,7 +11,8 @@ from mon.worker_checks import compact, base_result
 from mon.worker_harness import run_worker, safe_json
 
 FAILS = ["raise:ValueError", "raise:KeyError", "raise:CustomError", "raise:CustomBase", "raise:KeyboardInterrupt",
-         "raise:SystemExit", "raise:TimeoutError", "raise:CancelledError", "raise:TaskRejectedError", "raise:FalsyError"]
+         "raise:SystemExit", "raise:TimeoutError", "raise:CancelledError", "raise:TaskRejectedError", "raise:FalsyError",
+         "raise:BadStrError", "raise:EmptyLenError"]
 EXTRA_LABELS: List[Dict[str, Any]] = [
     {}, {"u": 1}, {"s": "txt", "f": 2.5}, {"b": True, "z": False}, {"by": b"\x00\xff", "n": -3},
     {"big": 2 ** 80, "e": ""}, {"uni": "ü∆", "fl": -0.0},
